@@ -1,4 +1,4 @@
-SPECIFICATION PSpec
+SPECIFICATION PSafeSpec
 CONSTANTS
   Repos = {"r1", "r2"}
   Tags = {"t1", "t2"}
